@@ -18,7 +18,11 @@ build() { # profile-flag target-subdir
 # present only where the release profile lacks a check, show in exactly one of the two.
 DEV=1
 
+if [ "$MODE" = "--replay" ] && head -n 1 "$ARG" 2>/dev/null | grep -q "^apiprobe"; then
+  exec "$VERIF_DIR/tools/api_probe.sh" "$PROP"
+fi
 if [ "$PROP" = "C20" ]; then
+  if [ "$MODE" != "--replay" ]; then "$VERIF_DIR/tools/api_probe.sh" "$PROP"; rc=$?; [ $rc -ne 0 ] && exit $rc; fi
   exec "$VERIF_DIR/tools/run_c20.sh" "$MODE" "$ARG"
 fi
 
@@ -52,6 +56,10 @@ if [ "$MODE" = "--replay" ]; then
   [ $rc -gt 2 ] && { echo "INCONCLUSIVE: replay ended abnormally (status $rc)"; exit 2; }
   exit $rc
 fi
+
+# type-level part (C09, C10, C14, C15, C19): the instantiations the statement quantifies over exist
+"$VERIF_DIR/tools/api_probe.sh" "$PROP"; rc=$?
+[ $rc -ne 0 ] && exit $rc
 
 WATCHDOG=1800; [ "$MODE" = "thorough" ] && WATCHDOG=14400
 run() { # binary, extra env...
